@@ -88,6 +88,18 @@ theorem sumTo_eq_of_le {n : Nat} {f g : Nat → Nat} (hle : ∀ q, q < n → f q
     · subst hqk; omega
     · exact ih (fun q hq => hle q (by omega)) (by omega) q (by omega)
 
+theorem le_sumTo {n q : Nat} (f : Nat → Nat) (hq : q < n) : f q ≤ sumTo n f := by
+  induction n with
+  | zero => omega
+  | succ k ih =>
+    simp only [sumTo]
+    by_cases e : q = k
+    · subst e; omega
+    · have := ih (by omega); omega
+
+theorem eq_zero_of_sumTo {n : Nat} {f : Nat → Nat} (h : sumTo n f = 0) : ∀ q, q < n → f q = 0 := by
+  intro q hq; have := le_sumTo f hq; omega
+
 /-! ### counting packets -/
 
 def b2n (b : Bool) : Nat := if b then 1 else 0
